@@ -332,12 +332,25 @@ func Fqdn(s string) string {
 // form is lowercase and fully qualified. Only US-ASCII letters are affected. See
 // Section 6.2 in RFC 4034.
 func CanonicalName(s string) string {
-	return strings.Map(func(r rune) rune {
-		if r >= 'A' && r <= 'Z' {
-			r += 'a' - 'A'
+	return asciiLower(Fqdn(s))
+}
+
+// asciiLower lower-cases the ASCII letters of s and leaves every other octet
+// as it is (a name is a string of octets, not of runes).
+func asciiLower(s string) string {
+	for i := 0; i < len(s); i++ {
+		if s[i] < 'A' || s[i] > 'Z' {
+			continue
 		}
-		return r
-	}, Fqdn(s))
+		b := []byte(s)
+		for ; i < len(b); i++ {
+			if b[i] >= 'A' && b[i] <= 'Z' {
+				b[i] += 'a' - 'A'
+			}
+		}
+		return string(b)
+	}
+	return s
 }
 
 // Copied from the official Go code.
